@@ -68,7 +68,19 @@ def BOUNDS(tier):
 
 
 def make_iters(config, qi):
-    """-> list of (factory of fresh iterator, solitary result)"""
+    """-> (build, solitary results); build() compiles fresh environments / queries and returns the
+    iterator factories, so that every explored schedule starts from the initial state (state kept on
+    query or environment objects cannot leak from one schedule into the next)"""
+    def build():
+        return _build_iters(config, qi)
+
+    sol = []
+    for f in build():
+        sol.append([(n.location, id(n.value)) for n in f()])
+    return build, sol
+
+
+def _build_iters(config, qi):
     JPE = impl.jp.JSONPathEnvironment
     text, doc = QUERIES[qi]
     other_text, other_doc = QUERIES[(qi + 1) % N_ITER_QUERIES]
@@ -91,10 +103,7 @@ def make_iters(config, qi):
         facs = [lambda: q1.finditer(doc), lambda: q2.finditer(other_doc)]
     else:
         facs = [lambda: q1.finditer(doc), lambda: q1.finditer(doc), lambda: q1.finditer(ALT_DOC)]
-    sol = []
-    for f in facs:
-        sol.append([(n.location, id(n.value)) for n in f()])
-    return facs, sol
+    return facs
 
 
 def schedules(counts):
@@ -118,6 +127,7 @@ def schedules(counts):
 
 def run_schedule(facs, sol, sched, close_at=None):
     """-> None | description.  close_at = (position, iterator, mode)"""
+    facs = facs() if not isinstance(facs, list) else facs
     its = [iter(f()) for f in facs]
     pos = [0] * len(facs)
     closed = set()
@@ -163,34 +173,47 @@ T_HARNESS = [
 
 
 def thread_bodies(h):
-    """-> make_bodies() and the sequential observations"""
+    """-> (make, seq): make() builds a FRESH environment / shared compiled queries and returns the
+    two thread bodies (so every explored schedule starts from the initial state); make.post() runs
+    the same two bodies sequentially on the objects of the latest build.  seq = the sequential
+    observations on a fresh build."""
     _, qa, qb, ka, kb = T_HARNESS[h]
-    env = impl.jp.JSONPathEnvironment()
-    shared = {}
 
-    def body(qi, kind, slot):
-        text, doc = QUERIES[qi]
-        if kind == "iter":
-            q = shared.setdefault(("q", qi), env.compile(text))
-            return lambda: [(n.location, id(n.value)) for n in q.finditer(doc)]
-        if kind == "find":
-            return lambda: [(n.location, id(n.value)) for n in env.find(text, doc)]
-        if kind == "compile":
-            return lambda: [(n.location, id(n.value)) for n in env.compile(text).find(doc)]
-        if kind == "compile_bad":
-            def f():
-                try:
-                    env.compile(text + " ]")
-                except impl.JSONPathError as e:
-                    return "err " + type(e).__name__ + " " + str(e)
-                return "accepted"
-            return f
-        raise KeyError(kind)
+    def build():
+        env = impl.jp.JSONPathEnvironment()
+        shared = {}
+
+        def body(qi, kind):
+            text, doc = QUERIES[qi]
+            if kind == "iter":
+                q = shared.setdefault(("q", qi), env.compile(text))
+                return lambda: [(n.location, id(n.value)) for n in q.finditer(doc)]
+            if kind == "find":
+                return lambda: [(n.location, id(n.value)) for n in env.find(text, doc)]
+            if kind == "compile":
+                return lambda: [(n.location, id(n.value)) for n in env.compile(text).find(doc)]
+            if kind == "compile_bad":
+                def f():
+                    try:
+                        env.compile(text + " ]")
+                    except impl.JSONPathError as e:
+                        return "err " + type(e).__name__ + " " + str(e)
+                    return "accepted"
+                return f
+            raise KeyError(kind)
+
+        return [body(qa, ka), body(qb, kb)]
 
     def make():
-        return [body(qa, ka, 0), body(qb, kb, 1)]
+        bodies = build()
+        make.latest = bodies
+        return bodies
 
-    seq = [b() for b in make()]
+    def post():
+        return [b() for b in make.latest]
+
+    make.post = post
+    seq = [b() for b in build()]
     return make, seq
 
 
@@ -231,7 +254,10 @@ def abandon_case(qi, j, mode, repeat):
     want = [(n.location, id(n.value)) for n in env.compile(text).finditer(doc)]
     for _ in range(repeat):
         if mode == "find_one":
-            q.find_one(doc)
+            try:
+                q.find_one(doc)
+            except Exception as e:  # noqa: BLE001
+                return {"during_find_one": _ + 1, "observed": "raised " + type(e).__name__}
             continue
         it = iter(q.finditer(doc))
         for _k in range(j):
@@ -239,6 +265,8 @@ def abandon_case(qi, j, mode, repeat):
                 next(it)
             except StopIteration:
                 break
+            except Exception as e:  # noqa: BLE001
+                return {"during_partial_iteration": _ + 1, "observed": "raised " + type(e).__name__}
         if mode == "close" and hasattr(it, "close"):
             it.close()
         del it
@@ -284,7 +312,7 @@ def check_case(case):
                          {"thread_results_differ": [i for i in range(2) if obs[i] != seq[i]],
                           "errors": exe.errors}, "interference")
     try:
-        post = [b() for b in make()]
+        post = make.post()
     except Exception as e:  # noqa: BLE001
         post = "raised " + type(e).__name__
     if post != seq:
@@ -317,7 +345,7 @@ def run_shard(desc):
         return sh
     if desc["part"] == "iters":
         facs, sol = make_iters(desc["config"], desc["q"])
-        k = len(facs)
+        k = len(sol)
         cap = int(desc.get("cap", {"2": 5, "3": 3})[str(k)])
         # all interleavings of the first `cap` next() calls of every iterator; the remaining calls
         # are appended iterator by iterator (drain), still compared item by item
@@ -364,7 +392,7 @@ def run_shard(desc):
             # the shared objects must also be left intact: the same bodies, run sequentially
             # after the concurrent execution, still give the sequential observations
             try:
-                post = [b() for b in make()]
+                post = make.post()
             except Exception as e:  # noqa: BLE001
                 post = "raised " + type(e).__name__
             if post != seq:
